@@ -292,7 +292,7 @@ impl RunCtx {
     pub fn new(id: &'static str, level: &'static str, tier: Tier, seed: u64, mode: Mode) -> Self {
         let verif_root = std::env::var("NVCHECK_ROOT")
             .map(PathBuf::from)
-            .unwrap_or_else(|_| PathBuf::from("/verif"));
+            .unwrap_or_else(|_| PathBuf::from(concat!(env!("CARGO_MANIFEST_DIR"), "/..")));
         let base = if Path::new("/dev/shm").is_dir() {
             PathBuf::from("/dev/shm")
         } else {
